@@ -310,25 +310,59 @@ impl<S: ShortGroupSignatureScheme> Presentation<S> {
             proof_messages.insert(*id, proof_claims);
         }
 
+        // Claims tied together by statements with several references (equality) must share
+        // one blinding factor. Such statements can overlap (a = b listed after b = c), so the
+        // sharing is computed per connected group of (statement id, claim index) pairs
+        // instead of statement by statement in listing order.
+        let mut groups: Vec<Vec<(String, usize)>> = Vec::new();
         for statement in &same_proof_messages {
-            let ref_ids = statement.reference_ids();
-            let id1 = &ref_ids[0];
-            for id2 in ref_ids.iter().skip(1) {
-                let ix2 = statement.get_claim_index(id2);
-                let ix1 = statement.get_claim_index(id1);
-                let map1 = proof_messages.get(id1).unwrap().clone();
-                let map2 = proof_messages.get_mut(id2).unwrap();
+            let mut group: Vec<(String, usize)> = Vec::new();
+            for id in statement.reference_ids() {
+                let ix = statement.get_claim_index(&id);
+                if !group.contains(&(id.clone(), ix)) {
+                    group.push((id, ix));
+                }
+            }
+            let mut i = 0;
+            while i < groups.len() {
+                if groups[i].iter().any(|m| group.contains(m)) {
+                    for m in groups.remove(i) {
+                        if !group.contains(&m) {
+                            group.push(m);
+                        }
+                    }
+                } else {
+                    i += 1;
+                }
+            }
+            groups.push(group);
+        }
+        for group in &groups {
+            let mut shared = None;
+            for (id, ix) in group {
+                let messages = proof_messages.get_mut(id).ok_or_else(|| {
+                    Error::InvalidPresentationData(format!(
+                        "statement references '{}' which is not a signature statement",
+                        id
+                    ))
+                })?;
+                let entry = messages.get_mut(*ix).ok_or_else(|| {
+                    Error::InvalidPresentationData(format!(
+                        "can't find claim_index '{}' in statement '{}'",
+                        ix, id
+                    ))
+                })?;
                 // NOTE: other unexpected combinations could be checked too,
                 // e.g., one ProofSpecificBlinding, one ExternalBlinding
-                if matches!(map1[ix1].1, ProofMessage::Revealed(_))
-                    || matches!(map2[ix2].1, ProofMessage::Revealed(_))
-                {
+                if matches!(entry.1, ProofMessage::Revealed(_)) {
                     return Err(Error::InvalidClaimData(
                         "revealed claim cannot be used with equality proof",
                     ));
                 }
-                map2[ix2].0 = map1[ix1].0.clone();
-                map2[ix2].1 = map1[ix1].1;
+                match &shared {
+                    None => shared = Some(entry.clone()),
+                    Some(first) => *entry = first.clone(),
+                }
             }
         }
 
